@@ -145,6 +145,12 @@ def gridCoord {K : Type} [NatCast K] [Div K] [Mul K] [Sub K] (L : K) (N : Nat) (
 
 def gridLen (N : Nat) (full : Bool) : Nat := if full then N + 1 else N
 
+/-- `wrap_bc`: source (flat index into the `N^D` state) of entry `i` (flat index into the padded
+    `(N+1)^D` array): every padded coordinate `N` wraps to `0` -/
+def wrapSource (D N : Nat) (i : Nat) : Nat :=
+  let idx := unflatten (List.replicate D (N + 1)) i
+  flatten (List.replicate D N) (idx.map (fun j => j % N))
+
 /-- accept/reject decision of `BaseStepper.__call__` / `RepeatedStepper.__call__` / `Poisson.__call__` -/
 def acceptsShape (C D N : Nat) (shape : List Nat) : Bool :=
   shape == C :: spatialShape D N
